@@ -89,6 +89,12 @@ pub fn rich_scheme(rng: &mut Rng, max_depth: u16) -> SchemeSpec {
         optional: false,
     });
     fields.push(Fld { name: "tcp.port".into(), ty: Type::Int, optional: true });
+    // names that begin with the word `not` (`LogicalExpr::lex_unary_op`): `notes` / `not_b` are
+    // identifiers, and `es` is what `notes` used to be taken for (`not es`). Appended at the
+    // END so that the indices of the fields above stay what they were.
+    fields.push(Fld { name: "notes".into(), ty: Type::Bytes, optional: false });
+    fields.push(Fld { name: "not_b".into(), ty: Type::Bool, optional: false });
+    fields.push(Fld { name: "es".into(), ty: Type::Bytes, optional: false });
     let funcs: Vec<(String, String)> = crate::funcs::SIMPLE_NAMES
         .iter()
         .map(|n| (n.to_string(), n.to_string()))
@@ -106,7 +112,7 @@ pub fn rich_scheme(rng: &mut Rng, max_depth: u16) -> SchemeSpec {
         funcs,
         lists,
         nil_ne: rng.chance(2, 3),
-        route: rng.below(4) as u8,
+        route: rng.below(8) as u8,
         max_depth,
         star_limit: None,
     }
@@ -582,6 +588,29 @@ impl<'a> G<'a> {
     fn call_cmp(&mut self, vec: bool, depth: u32) -> Option<String> {
         let o = self.ows();
         let o2 = self.ows();
+        if !vec && self.has_list(Type::Bytes) && self.rng.chance(1, 10) {
+            // a list comparison NESTED in the left-hand side of another one: the inner one is
+            // complete before the later argument (a plain field path) is reached
+            //   when(<int path> in $l, <bytes path>) in $m
+            let inner_prim = *self.rng.pick(&[Type::Int, Type::Ip, Type::Bytes]);
+            if self.has_list(inner_prim) {
+                let (a, _) = self.path_to(inner_prim, 0, false)?;
+                let inner_list = self.in_list();
+                let (b, _) = self.path_to(Type::Bytes, 0, false)?;
+                let outer_list = self.in_list();
+                for lhs in [&a, &b] {
+                    for (i, f) in self.spec.fields.iter().enumerate() {
+                        if lhs.starts_with(&f.name)
+                            && !lhs[f.name.len()..].starts_with(|c: char| c.is_ascii_alphanumeric() || c == '_' || c == '.')
+                        {
+                            self.used_in_list.insert(i);
+                        }
+                    }
+                }
+                self.stats.push("call.when.nested-lists");
+                return Some(format!("when({o}{a}{inner_list},{}{b}{o2}){outer_list}", self.ows()));
+            }
+        }
         if vec && self.rng.chance(1, 3) {
             // mapped call with extra arguments: a literal, and a nested call (re-evaluating it
             // per element is "expensive", so the engine memoises) over a possibly absent field
@@ -591,6 +620,7 @@ impl<'a> G<'a> {
             let extra = match pick {
                 0 => "lower(oy)".to_string(),
                 1 => "oy".to_string(),
+                // `path_to` records the field it picks
                 _ => format!("lower({})", self.path_to(Type::Bytes, 0, false)?.0),
             };
             if pick < 2 {
@@ -729,6 +759,16 @@ impl<'a> G<'a> {
         if self.fancy && self.rng.chance(1, 2) { b } else { a }
     }
 
+    /// would `not` glued to `inner` be read as a registered name (maximal dotted run)?
+    fn glued_is_name(&self, inner: &str) -> bool {
+        let text = format!("not{inner}");
+        let end = text
+            .find(|c: char| !(c.is_ascii_alphanumeric() || c == '_' || c == '.'))
+            .unwrap_or(text.len());
+        let run = &text[..end];
+        self.spec.fields.iter().any(|f| f.name == run) || self.spec.funcs.iter().any(|(n, _)| n == run)
+    }
+
     /// a simple (non-chain) expression of the requested shape
     fn simple(&mut self, vec: bool, depth: u32) -> String {
         let c = if depth == 0 { 0 } else { self.rng.below(10) };
@@ -741,8 +781,21 @@ impl<'a> G<'a> {
             7 => {
                 let n = self.alias(&["not", "!"]);
                 let inner = self.simple(vec, depth - 1);
-                // `not` needs no space; keep one unless the inner starts with a non-identifier
-                let sep = if n == "!" { self.ows() } else if inner.starts_with('(') { self.ows() } else { self.ws() };
+                // `not` needs no space; keep one unless the inner starts with a non-identifier —
+                // or, now and then, glue the word to the operand (`notb`, `notob`, `notnot_b`):
+                // still the operator as long as the glued text completes no registered name
+                // (`lex_unary_op`). Where it WOULD complete one (`not` + `es ..` = `notes ..`) a
+                // space is kept: that text means the other field, which would falsify the
+                // generator's record of the fields it wrote (`used`); the same texts are
+                // produced anyway whenever the field `notes` / `not_b` itself is picked
+                let sep = if n == "!" || inner.starts_with('(') {
+                    self.ows()
+                } else if self.fancy && self.rng.chance(1, 8) && !self.glued_is_name(&inner) {
+                    self.stats.push("not.glued");
+                    String::new()
+                } else {
+                    self.ws()
+                };
                 format!("{n}{sep}{inner}")
             }
             _ => {
@@ -778,7 +831,9 @@ impl<'a> G<'a> {
             let a = self.simple(true, depth);
             let b = self.simple(true, depth - 1);
             let op = self.logical_op();
-            let a = if a.starts_with('(') || a.starts_with("not") || a.starts_with('!') { a } else { format!("({a})") };
+            // `notes…` / `not_b…` are identifiers, not the operator
+            let is_not_op = a.starts_with("not") && !a.starts_with("notes") && !a.starts_with("not_b");
+            let a = if a.starts_with('(') || is_not_op || a.starts_with('!') { a } else { format!("({a})") };
             format!("{a}{}{op}{}{b}", self.ws(), self.ws())
         } else if self.rng.chance(1, 6) {
             // direct Array(Bool) value
@@ -851,7 +906,20 @@ impl<'a> G<'a> {
                     if let Some(i) = used.and_then(|n| self.spec.field_index(n)) {
                         self.note_field(i);
                     }
-                    return if self.rng.chance(1, 2) {
+                    // half of the time over a path that is absent in many contexts
+                    let arg = if self.rng.chance(1, 2) {
+                        let (n, txt) = *self.rng.pick(&[("oay", "oay[*]"), ("omy", "omy[*]"), ("aay", "aay[7][*]"), ("may", "may[\"zz\"][*]")]);
+                        match self.spec.field_index(n) {
+                            Some(i) => {
+                                self.note_field(i);
+                                txt.to_string()
+                            }
+                            None => arg,
+                        }
+                    } else {
+                        arg
+                    };
+                    return if self.rng.chance(2, 3) {
                         format!("len2({o}{arg}, {extra})")
                     } else {
                         format!("len2({o}{arg}, {extra})[{}]", self.rng.below(3))
